@@ -197,16 +197,18 @@ func (s *server) CreateTable(ctx context.Context, req *btapb.CreateTableRequest)
 		req.Table = &btapb.Table{}
 	}
 	req.Table.Name = tbl
+	// The response is serialized after this handler has returned; it must not share the
+	// families map with the stored definition, which ModifyColumnFamilies edits.
+	ct := &btapb.Table{
+		Name:           tbl,
+		ColumnFamilies: proto.Clone(req.Table).(*btapb.Table).GetColumnFamilies(),
+		Granularity:    req.Table.GetGranularity(),
+	}
 	rows := s.storage.Create(req.Table)
 	s.tables[tbl] = newTable(req.Table, rows)
 
 	s.mu.Unlock()
 
-	ct := &btapb.Table{
-		Name:           tbl,
-		ColumnFamilies: req.GetTable().GetColumnFamilies(),
-		Granularity:    req.GetTable().GetGranularity(),
-	}
 	if ct.Granularity == 0 {
 		ct.Granularity = btapb.Table_MILLIS
 	}
